@@ -209,15 +209,34 @@ pub fn check_edit(t: &Table, e: &TypeEntry, v: &Val, path: &[(usize, usize)], ed
                     cuts.push(None);
                 }
                 cuts.extend(swallowing_steps(&edited, path).into_iter().rev().map(Some));
+                // every level at which the failure may come to rest is acceptable: a failed element that is not the
+                // first of its vector makes the vector's tag re-appear (DuplicateTag one level up), which cascades
+                let cut_off = |c: Option<usize>| {
+                    hdr_len(l, body)
+                        + match c {
+                            None => offset_of(&edited, path, tampered),
+                            Some(k) => offset_of_elem(&edited, &path[..k], path[k].0, path[k].1),
+                        }
+                };
+                for c in &cuts {
+                    if let Some(want) = prefix_value(t, l, &edited, path, tampered, *c) {
+                        if *d == want && *rest == bytes.len() - cut_off(*c) {
+                            return Ok(());
+                        }
+                    }
+                }
                 let elem_cut = cuts.iter().copied().find(|c| prefix_value(t, l, &edited, path, tampered, *c).is_some()).unwrap_or(cuts.first().copied().flatten());
-                let off = hdr_len(l, body)
-                    + match elem_cut {
-                        None => offset_of(&edited, path, tampered),
-                        Some(k) => offset_of_elem(&edited, &path[..k], path[k].0, path[k].1),
-                    };
+                let off = cut_off(elem_cut);
                 let want_rest = bytes.len() - off;
                 match prefix_value(t, l, &edited, path, tampered, elem_cut) {
                     Some(want) if *d == want && *rest == want_rest => Ok(()),
+                    // a failed vector element is not handed back: the enclosing level parsed (part of) its bytes
+                    _ if !matches!(edit, Edit::Foreign { .. }) && !swallowing_steps(&edited, path).is_empty() && *rest < want_rest => Err(Violation::new(
+                        "edit",
+                        "C13 kind=failed-vec-element-bytes-adopted-by-enclosing-level".to_string(),
+                        format!("type {ty}, {kind} at depth {depth}: the element at byte {off} of {} fails (so its vector ends in front of it), but its bytes were parsed by an enclosing level instead of being handed back\n  result {}", clip(&hex(&bytes), 300), show(&got)),
+                        input,
+                    )),
                     want => Err(Violation::new(
                         "edit",
                         // unconsumed bytes of a nested container are handed to the enclosing level, where a positional
